@@ -161,6 +161,41 @@ pub fn run(c: &Value) -> Value {
             let entries_agree = [s_entry, s_trait, s_value].iter().all(|x| x.as_deref() == Ok(s.as_str()));
             json!({"build":"ok","format":"ok","s":s,"entries_agree":entries_agree,"r":enum_parse(fmt,&s),"back":narsese_to(&v)})
         }
+        // ------------------------------------------------------------ X02: translation between formats, idempotence of format . parse . format
+        "translate" => {
+            let (from, to) = (s_of(c, "from"), s_of(c, "to"));
+            let v = match guarded(|| narsese_of(&c["v"])) {
+                Ok(Ok(v)) => v,
+                e => return json!({"build":"fail","msg":format!("{e:?}")}),
+            };
+            let step = |fmt: &str, v: &en::Narsese| -> (Value, Option<(String, en::Narsese)>) {
+                let f = enum_format(fmt);
+                let s = match guarded(|| f.format_narsese(v)) { Ok(s) => s, Err(p) => return (json!({"r":"panic","msg":p}), None) };
+                match guarded(|| f.parse::<en::Narsese>(&s)) {
+                    Ok(Ok(p)) => (json!({"r":"ok","v":narsese_to(&p)}), Some((s, p))),
+                    Ok(Err(e)) => (json!({"r":"err","msg":format!("{e}"),"s":s}), None),
+                    Err(p) => (json!({"r":"panic","msg":p,"s":s}), None),
+                }
+            };
+            let mut o = json!({"build":"ok"});
+            let (r1, k1) = step(from, &v);
+            o["p1"] = r1;
+            if let Some((s1, p1)) = k1 {
+                // idempotence: format(parse(format(v))) denotes the same text up to the order of unordered components
+                let s1b = guarded(|| enum_format(from).format_narsese(&p1));
+                o["refmt_len_same"] = json!(s1b.as_ref().map(|x| x.chars().count() == s1.chars().count()).unwrap_or(false));
+                let sort = |x: &str| { let mut c: Vec<char> = x.chars().collect(); c.sort_unstable(); c };
+                o["refmt_bag_same"] = json!(s1b.as_ref().map(|x| sort(x) == sort(&s1)).unwrap_or(false));
+                let (r2, k2) = step(to, &p1);
+                o["p2"] = r2;
+                if let Some((_, p2)) = k2 {
+                    let (r3, _) = step(from, &p2);
+                    o["p3"] = r3;
+                    o["eq12"] = json!(p1 == p2);
+                }
+            }
+            o
+        }
         // ------------------------------------------------------------ C02
         "rt_lex" => {
             let fmt = s_of(c, "fmt");
